@@ -80,6 +80,40 @@ Fixpoint s_echo_all (ls : list lit) : option (list obs) :=
                 end
   end.
 
+(* a scope value must be declared with the C type of its kind, signedness included ... *)
+Definition s_cname (k : kind) : cname :=
+  match k with
+  | KBool => CNBool | KI8 => CNChar | KU8 => CNUChar | KI16 => CNShort | KU16 => CNUShort
+  | KI32 => CNInt | KU32 => CNUInt | KI64 => CNLong | KU64 => CNULong | KF32 => CNFloat | KF64 => CNDouble
+  end.
+
+(* ... and the inlined kernel must read the value that was added *)
+Definition s_scope_one (l : lit) : option obs :=
+  match l with
+  | LScalar k v => if in_range k v then Some (OType (s_scalar k v)) else None
+  | _ => None
+  end.
+
+Fixpoint s_scope_all (ls : list lit) : option (list obs) :=
+  match ls with
+  | [] => Some []
+  | l :: ls' => match s_scope_one l, s_scope_all ls' with
+                | Some o, Some os => Some (o :: os)
+                | _, _ => None
+                end
+  end.
+
+(* Known finding scope_unsigned: the library declares unsigned scope values with the signed
+   type name, so the theorems exclude unsigned scalars in scope operations by this guard. *)
+Definition lit_guard (l : lit) : bool :=
+  match l with LScalar k _ => negb (is_unsigned k) | _ => true end.
+Definition op_guard (o : op) : bool :=
+  match o with
+  | OpScopeDecl _ l => lit_guard l
+  | OpScopeRun _ args => forallb lit_guard args
+  | _ => true
+  end.
+
 (* ---------------------------------------------------------------- documents *)
 Definition doc := path -> node.
 
@@ -202,6 +236,12 @@ Definition sstep (s : sstate) (o : op) : option (sstate * req) :=
                       | _ => Any
                       end)
   | OpKRun args => Some (s, match s_echo_all args with Some os => Must (OList os) | None => Any end)
+  | OpScopeDecl ic l => Some (s, match l with
+                                 | LScalar k v => if in_range k v then Must (ODecl ic (s_cname k) false) else Any
+                                 | LNull => Must (ODecl ic CNVoid true)
+                                 | _ => Any
+                                 end)
+  | OpScopeRun ic args => Some (s, match s_scope_all args with Some os => Must (OList os) | None => Any end)
   | OpNew n =>
       let r := s_next s in
       let h := mkO true TJson 8 true (PRef r []) in
